@@ -26,22 +26,37 @@ Types == Leaves \cup D1(Leaves) \cup D1(Nest1)
          \cup { ArrayT(x, 1) : x \in Nest0 } \cup { ArrayT(x, 3) : x \in Nest0 } \cup { TupleT(<< x >>) : x \in Nest0 }
          \cup { TupleT(<< x, y, z >>) : x \in {UintT(256), BytesT}, y \in {UintT(256), BytesT}, z \in {UintT(256), BytesT} }
 
+(* nested static aggregates followed by a sibling (the decoder has to skip their inline words) *)
+S2 == ArrayT(ArrayT(UintT(256), 2), 2)
+ST == ArrayT(TupleT(<< UintT(256), IntT(8) >>), 2)
+DeepStatic == { TupleT(<< S2, UintT(256) >>), TupleT(<< ST, UintT(256) >>), TupleT(<< TupleT(<< S2 >>), BytesT >>),
+                TupleT(<< UintT(8), S2, BytesT >>), ArrayT(S2, 2), SliceT(TupleT(<< S2, BoolT >>)),
+                TupleT(<< TupleT(<< UintT(256), TupleT(<< IntT(8), UintT(256) >>) >>), BytesT >>) }
+DeepLists == { << T >> : T \in DeepStatic } \cup { << S2, UintT(256) >>, << ST, BytesT >>, << TupleT(<< S2, UintT(256) >>), UintT(256) >>,
+               << TupleT(<< UintT(256), IntT(8) >>), S2, BytesT >> }
+
 (* argument lists: every type alone; nested ones also next to a static and a dynamic sibling *)
 ArgLists == { << T >> : T \in Types }
             \cup { << T, UintT(256) >> : T \in Nest1 } \cup { << BytesT, T >> : T \in Nest1 }
+            \cup DeepLists
 
 (* argument lists whose encodings get mutated *)
 RECURSIVE Depth(_)
 RECURSIVE MaxDepth(_, _)
 MaxDepth(ts, i) == IF i > Len(ts) THEN 0 ELSE LET d == Depth(ts[i])  r == MaxDepth(ts, i + 1) IN IF d > r THEN d ELSE r
 Depth(T) == IF Len(T.sub) = 0 THEN 0 ELSE 1 + MaxDepth(T.sub, 1)
+QuickNest1 == {UintT(256), IntT(8), BytesT} \cup D1({UintT(256), IntT(8), BytesT})
+Shallow(a) == \A i \in DOMAIN a : Depth(a[i]) <= 1
 MutLists == IF Level = "quick"
-            THEN { a \in ArgLists : (\E i \in DOMAIN a : IsDynamic(a[i])) /\ (\A i \in DOMAIN a : Depth(a[i]) <= 1) }
+            THEN { a \in ArgLists : (\E i \in DOMAIN a : IsDynamic(a[i])) /\ Shallow(a) }
                  \cup { << ArrayT(SliceT(BytesT), 2) >>, << SliceT(ArrayT(BytesT, 2)) >>, << TupleT(<< SliceT(UintT(256)), BytesT >>) >>,
                         << SliceT(TupleT(<< UintT(256), BytesT >>)) >>, << ArrayT(TupleT(<< BytesT, IntT(8) >>), 2) >>,
                         << TupleT(<< ArrayT(BytesT, 2), UintT(256) >>) >>, << SliceT(SliceT(UintT(256))) >> }
-                 \cup { << T >> : T \in LeavesQuick }
-            ELSE ArgLists
+                 \cup { << T >> : T \in LeavesQuick } \cup DeepLists
+            ELSE { a \in ArgLists : Shallow(a) } \cup { << T >> : T \in D1(QuickNest1) }
+                 \cup { << T, UintT(256) >> : T \in QuickNest1 } \cup { << BytesT, T >> : T \in QuickNest1 } \cup DeepLists
+(* sample values whose encodings are mutated: both non-empty ones for shallow lists, the richest one otherwise *)
+MutVariants(a) == IF Level = "quick" \/ Shallow(a) THEN 2..3 ELSE {3}
 StrLists == { << BytesT >>, << SliceT(UintT(256)) >>, << ArrayT(BytesT, 2) >>, << SliceT(BytesT) >>, << TupleT(<< BytesT, UintT(256) >>) >>,
               << TupleT(<< UintT(256), SliceT(IntT(8)) >>) >>, << BytesT, UintT(8) >>, << StringT, BytesT >>, << ArrayT(SliceT(UintT(256)), 2) >>,
               << SliceT(SliceT(BoolT)) >> }
@@ -91,7 +106,7 @@ Next ==
   /\ LET a == c.args IN
      \/ \E i \in 1..3 : c' = Case("pack", a, EncArgs(a, Vals(a, i)), Vals(a, i), ToString(i), 0, 0)
      \/ /\ a \in MutLists
-        /\ \E i \in 2..3 :
+        /\ \E i \in MutVariants(a) :
              LET m == EncArgs(a, Vals(a, i))  L == Len(m) IN
              \/ \E p \in 1..(L \div 32), k \in 1..NRepl :
                   /\ Repl(WordAt(m, p), L)[k] # WordAt(m, p)
